@@ -107,6 +107,7 @@ class Spec(PropSpec):
         if ctx.escalate:
             n *= 2
         cases = [F.gen_partition_script(ctx.rng) for _ in range(n)]
+        cases += [F.gen_tcp_script(ctx.rng, "partition") for _ in range(n // 4)]
         ex = F.exhaustive_partition_scripts()
         if ctx.tier == "quick":
             ex = ctx.rng.sample(ex, 120)
@@ -121,9 +122,13 @@ class Spec(PropSpec):
     def oracle(self, case, obs):
         if obs.get("panic"):
             return []
+        if case["cfg"].get("tcp"):
+            return F.tcp_oracle(case, obs, "partition")
         return c03_oracle(case, obs)
 
     def nontrivial(self, case, obs):
+        if case["cfg"].get("tcp"):
+            return len(obs.get("tcp_recv", [])) > 0
         return not obs.get("panic") and c03_nontrivial(case, obs)
 
     def signature(self, case):
